@@ -314,6 +314,22 @@ func checkExportImport(n *world.Node, spec world.GenesisSpec, keys map[string]wo
 			return failf("derived-indices", "store-differs-after-import/"+store+"/"+storeDiffClass(store, diff[0]), "module store %s of the re-imported chain differs from the running chain: %v", store, diff)
 		}
 	}
+	// the relayer's boarding queue is rebuilt from the voter records: its order is not carried, its content is
+	{
+		q1, err1 := n.App.RelayerKeeper.Queue.Get(n.CommittedCtx())
+		q2, err2 := m.App.RelayerKeeper.Queue.Get(m.FinalizeCtx())
+		if err1 != nil || err2 != nil {
+			return failf("derived-indices", "boarding-queue-unreadable", "%v / %v", err1, err2)
+		}
+		set := func(l []string) string {
+			c := append([]string{}, l...)
+			sort.Strings(c)
+			return fmt.Sprint(c)
+		}
+		if set(q1.OnBoarding) != set(q2.OnBoarding) || set(q1.OffBoarding) != set(q2.OffBoarding) {
+			return failf("derived-indices", "boarding-queue-differs-after-import", "running chain: joining %v leaving %v; re-imported chain: joining %v leaving %v", q1.OnBoarding, q1.OffBoarding, q2.OnBoarding, q2.OffBoarding)
+		}
+	}
 	// continuation: the new chain produces blocks
 	if continuation > 0 {
 		ch, err := world.NewChain(spec2, resp.Validators)
@@ -428,7 +444,7 @@ func TestC18_ExportImport(t *testing.T) {
 	RunProp(t, Prop[ExportCase]{
 		ID: "C18", Name: "export-import", Quick: 640, Thor: 10_000,
 		Gen: genExportCase, Run: runExportCase,
-		Rule: "a history in the locking world (validators pending/active/downgraded/tombstoned/inactive incl. zero-power ones, pending and matured unlocks, claims queued), the relayer world (pending, on-boarding and off-boarding voters, consumed sequences) or the withdrawal world (pending/canceling/processing/paid/cancelled withdrawals, processing batches with fee-bumped candidates, refund/paid queues, voted hashes not yet handed over) is stopped at a generated block; ExportAppStateAndValidators E1; a fresh application is initialised with E1's state, validators, height and the consensus parameters (must succeed; the SDK compares requested and returned validators); the module manager's export of the just-initialised state must equal E1 module by module (null/[]/absent normalised); every module query over every key named in E1 answers identically; and, reported as a separate clause, the new chain must run 3 blocks from the exported height with the empty last commit CometBFT supplies and with validator updates acceptable to a CometBFT set seeded from InitChain; non-trivial = the exported state shows >= 3 of the listed interesting features; evaluations count history blocks",
+		Rule: "a history in the locking world (validators pending/active/downgraded/tombstoned/inactive incl. zero-power ones, pending and matured unlocks, claims queued), the relayer world (pending, on-boarding and off-boarding voters, consumed sequences) or the withdrawal world (pending/canceling/processing/paid/cancelled withdrawals, processing batches with fee-bumped candidates, refund/paid queues, voted hashes not yet handed over) is stopped at a generated block; ExportAppStateAndValidators E1; a fresh application is initialised with E1's state, validators, height and the consensus parameters (must succeed; the SDK compares requested and returned validators); the module manager's export of the just-initialised state must equal E1 module by module (null/[]/absent normalised); every module query over every key named in E1 answers identically; the raw module stores are equal (except zero-power ranking entries and the order of the relayer's boarding queue, whose content is compared as sets); and, reported as a separate clause, the new chain must run 3 blocks from the exported height with the empty last commit CometBFT supplies and with validator updates acceptable to a CometBFT set seeded from InitChain; non-trivial = the exported state shows >= 3 of the listed interesting features; evaluations count history blocks",
 	})
 }
 
